@@ -878,6 +878,21 @@ class aarch64_uint64(aarch64_uint64_noarg, aarch64_arg):
     parser = base_expr
 
 
+class aarch64_uint64_sf_bits(aarch64_uint64_noarg, aarch64_arg):
+    """Bit number: in the 32 bit form, bit 5 set is a reserved encoding"""
+    parser = base_expr
+
+    def encode(self):
+        if not super(aarch64_uint64_sf_bits, self).encode():
+            return False
+        return bool(self.parent.sf.value) or self.value < 32
+
+    def decode(self, v):
+        if not self.parent.sf.value and v >= 32:
+            return False
+        return super(aarch64_uint64_sf_bits, self).decode(v)
+
+
 def set_imm_to_size(size, expr):
     if size == expr.size:
         return expr
@@ -923,6 +938,21 @@ class aarch64_imm_sf(imm_noarg):
         size = 64 if self.parent.sf.value else 32
         self.expr = m2_expr.ExprInt(v, size)
         return True
+
+
+class aarch64_imm_sf_bits(aarch64_imm_sf, aarch64_arg):
+    """Bit number (immr, imms, lsb): in the 32 bit form, an immediate with bit 5
+    set is a reserved encoding"""
+
+    def encode(self):
+        if not super(aarch64_imm_sf_bits, self).encode():
+            return False
+        return self.expr.size == 64 or self.value < 32
+
+    def decode(self, v):
+        if not self.parent.sf.value and v >= 32:
+            return False
+        return super(aarch64_imm_sf_bits, self).decode(v)
 
 
 class aarch64_imm_sft(aarch64_imm_sf, aarch64_arg):
@@ -1898,8 +1928,8 @@ imm16_hw_sc = bs(l=16, cls=(aarch64_imm_hw_sc,), fname='imm')
 hw = bs(l=2, fname='hw')
 
 
-a_imms = bs(l=6, cls=(aarch64_imm_sf, aarch64_arg), fname="imm1", order=-1)
-a_immr = bs(l=6, cls=(aarch64_imm_sf, aarch64_arg), fname="imm1", order=-1)
+a_imms = bs(l=6, cls=(aarch64_imm_sf_bits,), fname="imm1", order=-1)
+a_immr = bs(l=6, cls=(aarch64_imm_sf_bits,), fname="imm1", order=-1)
 
 
 
@@ -2241,7 +2271,8 @@ aarch64op("udiv", [sf, bs('0'), bs('0'), bs('11010110'), rm, bs('00001'), bs('0'
 
 
 # extract register p.150
-aarch64op("extr", [sf, bs('00100111'), bs(l=1, cls=(aarch64_eq,), ref="sf"), bs('0'), rm, uimm6, rn, rd], [rd, rn, rm, uimm6])
+extr_lsb = bs(l=6, cls=(aarch64_uint64_sf_bits,), fname="imm", order=-1)
+aarch64op("extr", [sf, bs('00100111'), bs(l=1, cls=(aarch64_eq,), ref="sf"), bs('0'), rm, extr_lsb, rn, rd], [rd, rn, rm, extr_lsb])
 
 # shift reg p.155
 shiftr_name = {'LSL': 0b00, 'LSR': 0b01, 'ASR': 0b10, 'ROR': 0b11}
